@@ -108,6 +108,8 @@ class Concretizer:
         if post is None or not self.boolean(post):
             return None
         g = {}
+        if getattr(self, 'unevaluable', False):
+            return g        # the annotation expressions name nothing the function's globals define: eval raises NameError
         raws = [p._d['_annotation'] for p in info.params] + [info.sig._d['_return_annotation']]
         for mv in raws:
             if self.boolean(mv.has):
